@@ -101,7 +101,8 @@ func multiBody(stack []Spec, exes []ExeSpec, o MultiOpts) func() {
 					x.Ctx = ctx
 					ex = ex.WithContext(ctx)
 				}
-				x.StartedAt = vrt.Elapsed()
+				env.obs()
+				x.StartedAt, x.StartTick = vrt.Elapsed(), env.Tick
 				if es.Async {
 					res := ex.GetWithExecutionAsync(x.Fn)
 					if es.CancelAsync {
